@@ -35,10 +35,10 @@ func (s *Server) Rename(ctx context.Context, params *protocol.RenameParams) (*pr
 		return nil, nil
 	}
 
-	resolved := s.getWorkspaceResolved(params.TextDocument.URI)
+	resolved, primaryPath := s.resolvedForDocument(params.TextDocument.URI)
 	currentPath := uriToPath(params.TextDocument.URI)
 
-	locations := findReferences(target, resolved, currentPath, journal, true)
+	locations := findReferences(target, resolved, primaryPath, currentPath, journal, true)
 	if len(locations) == 0 {
 		return nil, nil
 	}
